@@ -4,15 +4,31 @@ import os
 import random
 import shutil
 import tempfile
+import time
 
 from . import common as C
 from .c05 import strip, first_diffs
 from .c06 import per_file
-from .c16 import gen_module
+from .c16 import gen_module, gen_dead, func_with_complexity
 
 PID = "C20"
 SELECT = [("complexity", "complexity"), ("deadcode", "dead_code"), ("clones", "clone"), ("cbo", "cbo"), ("lcom", "lcom"), ("deps", "system")]
 FLAGS = ["--min-complexity", "1", "--clone-threshold", "0.8", "--min-severity", "warning"]
+PER_FILE = ("complexity", "dead_code", "cbo", "lcom")
+# Sibling names for which the order in which a directory walk meets the files (names sorted per directory) is NOT the byte order of the collected path strings:
+# a directory whose name is a prefix of its sibling's name when the sibling goes on with a byte below "/" ("-", ".", "+"), and a module next to a package of the
+# same name ("utils.py" sorts before "utils/x.py" as a string, the walk visits "utils" first). Real projects have them (app/ + app-old/, core/ + core.bak/).
+LAYOUT_DIRS = [("app", "app-old"), ("core", "core.bak"), ("svc", "svc+v2"), ("lib", "lib-legacy")]
+# files the parser rejects (they sit in real trees: half-edited files, unresolved merges, notebook exports, templates with a .py suffix)
+BROKEN = [
+    ("syntax", "import os\n\ndef broken(:\n    return 1\n\nclass Half:\n    def m(self)\n        return 2\n"),
+    ("conflict", "import os\n\n<<<<<<< HEAD\ndef f(a):\n    return a + 1\n=======\ndef f(a):\n    return a + 2\n>>>>>>> feature\n"),
+    ("notebook", "%matplotlib inline\nimport os\n\ndef f(a):\n    !ls\n    return a\n"),
+    ("template", "{% if cookiecutter.use_cli %}\nimport click\n{% endif %}\n\ndef main({{ cookiecutter.args }}):\n    return {{ cookiecutter.value }}\n"),
+    ("brackets", "TABLE = {\n    'a': [1, 2,\n    'b': (3, 4\n\ndef after():\n    return TABLE[\n"),
+]
+# where the rejected file sits among the collected files: first, in the middle, last, inside a package
+BROKEN_AT = ["a0_%s.py", "n_%s.py", "zz_%s.py", "pkg/%s_gen.py"]
 
 
 def build_race():
@@ -24,6 +40,64 @@ def build_race():
     rc, out2 = C.sh(["go", "build", "-race", "-tags", "verif", "-overlay", os.path.join(C.BUILD, "overlay.json"), "-o", os.path.join(C.BUILD, "verifharness_race"),
                      "./cmd/verifharness"], cwd=C.REPO, env=env)
     return rc == 0, out + out2
+
+
+def walk_order(names):
+    """the order in which a directory walk that sorts the names of each directory meets these relative paths"""
+    tree = {}
+    for n in names:
+        node = tree
+        parts = n.split("/")
+        for p in parts[:-1]:
+            node = node.setdefault(p, {})
+        node[parts[-1]] = None
+    out = []
+
+    def rec(node, prefix):
+        for k in sorted(node):
+            if node[k] is None:
+                out.append(prefix + k)
+            else:
+                rec(node[k], prefix + k + "/")
+    rec(tree, "")
+    return out
+
+
+def write_files(root, files):
+    for fn, src in files.items():
+        os.makedirs(os.path.dirname(os.path.join(root, fn)), exist_ok=True)
+        with open(os.path.join(root, fn), "w") as f:
+            f.write(src)
+
+
+def race_run(targets, root, gomaxprocs, flags=FLAGS):
+    """the race-detector build of the real CLI on these targets: (rc, stderr, report or None)"""
+    rep = os.path.join(root, ".pyscn", "reports")
+    shutil.rmtree(rep, ignore_errors=True)
+    env = dict(os.environ, GOMAXPROCS=str(gomaxprocs), GORACE="halt_on_error=0 exitcode=66")
+    rc, so, se = C.sh_capture([os.path.join(C.BUILD, "pyscn_race"), "analyze", "--json", "--no-open"] + list(flags) + list(targets), cwd=root, env=env, timeout=1200)
+    data = None
+    if os.path.isdir(rep):
+        fs = sorted(f for f in os.listdir(rep) if f.endswith(".json"))
+        if fs:
+            try:
+                with open(os.path.join(rep, fs[-1])) as f:
+                    data = json.load(f)
+            except Exception:
+                data = None
+    return rc, se, data
+
+
+def small_module(rng, idx):
+    """a module with something for each per-file analysis (a function with branches, dead code, a class with a dependency and 1-3 cohesion groups) and little for the clone detector"""
+    out = ["import os", "", func_with_complexity("g%d" % idx, rng.choice([1, 2, 3, 6, 11])),
+           gen_dead(rng, "gone%d" % idx, rng.choice(["return", "raise", "break", "branch", "mixed"]), rng.choice([0, 0, 1, 4]), rng.choice([0, 1]))]
+    if rng.random() < 0.8:
+        body = ["    helper: Aux%d = None" % idx]
+        for g in range(rng.randint(1, 3)):
+            body += ["", "    def get%d(self):" % g, "        return self.part%d" % g, "", "    def put%d(self, v):" % g, "        self.part%d = v" % g]
+        out += ["class Aux%d:\n    pass\n" % idx, "class Box%d:\n%s\n" % (idx, "\n".join(body))]
+    return "\n".join(out) + "\n"
 
 
 def gen_project(rng, root):
@@ -52,9 +126,16 @@ def gen_project(rng, root):
     files["b_handlers.py"] = ("class Handler:\n    def handle(self, x):\n        self.repo = Repository()\n        self.led = Ledger()\n        return open_ledger()\n\n"
                               "class Other(Repository):\n    def m(self):\n        return sn.Ledger()\n")
     files["c_star.py"] = "from shared_names import *\n\nclass StarUser:\n    def run(self):\n        self.r = Repository()\n        return Ledger()\n"
-    for fn, src in files.items():
-        with open(os.path.join(root, fn), "w") as f:
-            f.write(src)
+    # layout: siblings whose walk order is not the byte order of their paths (see LAYOUT_DIRS); every analysis is handed the files in the collected order
+    da, db = rng.choice(LAYOUT_DIRS)
+    for d, base in ((da, 20), (db, 30)):
+        for k in range(rng.randint(2, 3)):
+            files["%s/m%d.py" % (d, k)] = ("import mod%d\n" % rng.randrange(n)) + small_module(rng, base + k)
+    if rng.random() < 0.6:
+        files["utils.py"] = small_module(rng, 40)
+        files["utils/__init__.py"] = ""
+        files["utils/helpers.py"] = "import utils\n" + small_module(rng, 41)
+    write_files(root, files)
     return files
 
 
@@ -70,9 +151,19 @@ def run(tier, seed, replay=None):
         "combined and separate runs use the same flags; reports are compared exactly (order included) after removing timestamps/durations",
     ]
     nproj = 4 if tier == "quick" else 24
-    hist = {"projects": 0, "select_runs": 0, "subset_runs": 0, "race_runs": 0, "mcp_calls": 0}
+    hist = {"projects": 0, "select_runs": 0, "subset_runs": 0, "race_runs": 0, "mcp_calls": 0, "projects_walk_order_not_byte_order": 0, "multi_target_runs": 0,
+            "multi_target_orders_not_sorted": 0, "race_reports_compared": 0, "unparsable_file_runs": 0, "unparsable_by_kind": {}, "unparsable_by_position": {},
+            "valid_files_compared_next_to_unparsable": 0, "unparsable_runs_where_the_parser_rejected_it": 0}
     nontrivial = set()
+    hist["seconds_by_stage"] = {}
+    clock = [time.time()]
+
+    def tick(stage):
+        now = time.time()
+        hist["seconds_by_stage"][stage] = round(hist["seconds_by_stage"].get(stage, 0.0) + now - clock[0], 1)
+        clock[0] = now
     ok_race, out_race = build_race()
+    tick("race_builds")
     if not ok_race:
         ps.ok = False
         ps.broken.append("race-detector build of the CLI failed: %s" % out_race[-300:])
@@ -90,27 +181,74 @@ def run(tier, seed, replay=None):
                 continue
             full = strip(full)
             nontrivial.add(pi)
+            if walk_order(files) != sorted(files):
+                hist["projects_walk_order_not_byte_order"] += 1
+
             # ---- together vs apart -----------------------------------------------------------------------------------------------
-            for sel, key in SELECT:
-                rc, d, err = C.pyscn_json(["proj"], root, extra=FLAGS + ["--select", sel])
-                hist["select_runs"] += 1
-                if d is None:
-                    res.violation("C20: `analyze --select %s` produced no report although the combined run did: %s" % (sel, err[-200:]), dict(info, signature={"kind": "select-failed", "analysis": sel}))
-                    continue
-                d = strip(d)
-                diffs = []
-                first_diffs(full.get(key), d.get(key), [key], diffs, limit=3)
-                for path, a, b in diffs:
-                    sig = {"kind": "together-vs-apart", "path": path}
-                    k = C.classify(PID, sig)
-                    what = "C20: section `%s` differs between the combined run and `--select %s` at %s: %r (combined) vs %r (alone)" % (key, sel, path, a, b)
-                    if k:
-                        res.known_finding(k, "(%s)" % what[:250])
-                    else:
-                        res.violation(what, dict(info, signature=sig))
-                for other, okey in SELECT:
-                    if okey != key and d.get(okey) not in (None, {}):
-                        res.violation("C20: `--select %s` also produced a `%s` section" % (sel, okey), dict(info, signature={"kind": "extra-section", "analysis": sel, "section": okey}))
+            def together_vs_apart(full, targets, sels, info):
+                for sel, key in sels:
+                    rc, d, err = C.pyscn_json(targets, root, extra=FLAGS + ["--select", sel])
+                    hist["select_runs"] += 1
+                    if d is None:
+                        res.violation("C20: `analyze --select %s %s` produced no report although the combined run did: %s" % (sel, " ".join(targets), err[-200:]),
+                                      dict(info, signature={"kind": "select-failed", "analysis": sel}))
+                        continue
+                    d = strip(d)
+                    diffs = []
+                    first_diffs(full.get(key), d.get(key), [key], diffs, limit=3)
+                    for path, a, b in diffs:
+                        sig = {"kind": "together-vs-apart", "path": path}
+                        k = C.classify(PID, sig)
+                        what = "C20: section `%s` differs between the combined run and `--select %s` (targets %s) at %s: %r (combined) vs %r (alone)" % (key, sel, " ".join(targets), path, a, b)
+                        if k:
+                            res.known_finding(k, "(%s)" % what[:250])
+                        else:
+                            res.violation(what, dict(info, signature=sig))
+                    for other, okey in SELECT:
+                        if okey != key and d.get(okey) not in (None, {}):
+                            res.violation("C20: `--select %s` also produced a `%s` section" % (sel, okey), dict(info, signature={"kind": "extra-section", "analysis": sel, "section": okey}))
+
+            def per_file_same(want_all, got_all, keep, what_run, info, scenario=None, secs=PER_FILE):
+                """the per-file results of the files in `keep` are the same in both reports"""
+                bad = 0
+                for sec in secs:
+                    want = [x for x in want_all[sec] if (x[0][0] if sec == "clones" else x[0]) in keep] if keep is not None else want_all[sec]
+                    got = [x for x in got_all[sec] if (x[0][0] if sec == "clones" else x[0]) in keep] if keep is not None else got_all[sec]
+                    if got != want:
+                        bad += 1
+                        sig = {"kind": "per-file", "section": sec}
+                        if scenario:
+                            sig["scenario"] = scenario
+                        k = C.classify(PID, sig)
+                        what = "C20: %s changes the %s results of these files: lost %s, new or repeated %s" % (
+                            what_run, sec, [x for x in want if x not in got][:2], [x for x in got if x not in want or got.count(x) > want.count(x)][:2])
+                        if k:
+                            res.known_finding(k, "(%s)" % what[:250])
+                        else:
+                            res.violation(what, dict(info, signature=sig))
+                return bad
+
+            def race_check(targets, gomaxprocs, reference, info):
+                """one run of the race-detector build; reports a race, or a report that differs from the one the ordinary build gave for the same targets. True = violation"""
+                rc, se, rep = race_run(targets, root, gomaxprocs)
+                hist["race_runs"] += 1
+                if "DATA RACE" in se or rc == 66:
+                    first = se[se.index("DATA RACE"):][:1500] if "DATA RACE" in se else se[-600:]
+                    loc = [ln.strip() for ln in first.split("\n") if ".go:" in ln][:2]
+                    res.violation("C20: the race detector reports a data race during `analyze %s` (GOMAXPROCS=%s): %s" % (" ".join(targets), gomaxprocs, loc),
+                                  dict(info, signature={"kind": "data-race", "where": loc[:1]}, report=first, targets=targets))
+                    return True
+                if rep is not None and reference is not None:
+                    # another schedule of the same goroutines (slower build, other GOMAXPROCS): the same findings
+                    hist["race_reports_compared"] += 1
+                    if per_file_same(per_file(reference, lambda p: True), per_file(strip(rep), lambda p: True), None,
+                                     "running `analyze %s` under the race-detector build with GOMAXPROCS=%s (same files, same flags, another interleaving)" % (" ".join(targets), gomaxprocs),
+                                     dict(info, targets=targets), scenario="other-interleaving", secs=PER_FILE + ("clones",)):
+                        return True
+                return False
+
+            together_vs_apart(full, ["proj"], SELECT, info)
+            tick("together_vs_apart")
             # ---- per-file results vs subsets and orders ------------------------------------------------------------------------------
             names = sorted(files)
             ref = per_file(full, lambda p: True)
@@ -141,18 +279,66 @@ def run(tier, seed, replay=None):
                             res.known_finding(k, "(%s)" % what[:250])
                         else:
                             res.violation(what, dict(info, signature=sig, subset=sub))
+            tick("subsets_orders")
             # ---- data races ---------------------------------------------------------------------------------------------------------
             if ok_race:
                 for r in range(2 if tier == "quick" else 6):
-                    env = dict(os.environ, GOMAXPROCS=str([8, 16, 2][r % 3]), GORACE="halt_on_error=0 exitcode=66")
-                    rc, so, se = C.sh_capture([os.path.join(C.BUILD, "pyscn_race"), "analyze", "--json", "--no-open"] + FLAGS + ["proj"], cwd=root, env=env, timeout=1200)
-                    hist["race_runs"] += 1
-                    if "DATA RACE" in se or rc == 66:
-                        first = se[se.index("DATA RACE"):][:1500] if "DATA RACE" in se else se[-600:]
-                        loc = [ln.strip() for ln in first.split("\n") if ".go:" in ln][:2]
-                        res.violation("C20: the race detector reports a data race during `analyze` (GOMAXPROCS=%s): %s" % (env["GOMAXPROCS"], loc),
-                                      dict(info, signature={"kind": "data-race", "where": loc[:1]}, report=first))
+                    if race_check(["proj"], [8, 16, 2][r % 3], full, info):
                         break
+            tick("race_runs_proj")
+            # ---- several command-line targets in an order of their own: the files reach the analyses in THAT order (every file subset and ordering) -------------
+            tops = sorted(set(f.split("/")[0] for f in files))
+            for mi in range(1 if tier == "quick" else 3):
+                tg = tops[:]
+                rng.shuffle(tg)
+                if mi == 0 and tg == tops:
+                    tg.reverse()
+                targets = [os.path.join("proj", t) for t in tg]
+                minfo = dict(info, targets=targets)
+                rc, md, err = C.pyscn_json(targets, root, extra=FLAGS)
+                hist["multi_target_runs"] += 1
+                if md is None:
+                    res.violation("C20: `analyze %s` produces no report although `analyze proj` (the same files) does: %s" % (" ".join(targets), err[-200:]), dict(minfo, signature={"kind": "multi-target-failed"}))
+                    continue
+                md = strip(md)
+                collected = [f for t in tg for f in walk_order(files) if f == t or f.startswith(t + "/")]
+                if collected != sorted(collected):
+                    hist["multi_target_orders_not_sorted"] += 1
+                per_file_same(ref, per_file(md, lambda p: True), None, "listing the entries of proj as separate targets in the order %s instead of `proj`" % tg, minfo, scenario="target-order")
+                together_vs_apart(md, targets, rng.sample(SELECT, 2) if tier == "quick" else SELECT, minfo)
+                if ok_race:
+                    race_check(targets, [2, 8, 16][(pi + mi) % 3], md, minfo)
+            tick("multi_target")
+            # ---- a file the parser rejects among the files of the run: the results of the OTHER files are those of the run without it ---------------------------
+            kind, bsrc = BROKEN[(pi + seed) % len(BROKEN)]
+            bname = BROKEN_AT[(pi + seed // len(BROKEN)) % len(BROKEN_AT)] % kind
+            broot = os.path.join(root, "with_unparsable")
+            shutil.copytree(proj, os.path.join(broot, "proj"))
+            write_files(os.path.join(broot, "proj"), {bname: bsrc})
+            bpath = os.path.join("proj", bname)
+            hist["unparsable_by_kind"][kind] = hist["unparsable_by_kind"].get(kind, 0) + 1
+            hist["unparsable_by_position"][BROKEN_AT[(pi + seed // len(BROKEN)) % len(BROKEN_AT)]] = hist["unparsable_by_position"].get(BROKEN_AT[(pi + seed // len(BROKEN)) % len(BROKEN_AT)], 0) + 1
+            order = walk_order(list(files) + [bname])
+            listed = [f for f in names if f != bname]
+            rng.shuffle(listed)
+            listed.insert(rng.randrange(0, max(1, len(listed) // 3)), bname)
+            for how, targets, flags in (("the project directory, all analyses", ["proj"], FLAGS),
+                                        ("the files listed one by one in a shuffled order, the per-file analyses", [os.path.join("proj", f) for f in listed], FLAGS + ["--select", "complexity,deadcode,cbo,lcom"])):
+                rc, bd, err = C.pyscn_json(targets, broot, extra=flags)
+                hist["unparsable_file_runs"] += 1
+                binfo = dict(info, unparsable={bname: bsrc}, targets=targets, flags=flags)
+                if bd is None:
+                    res.violation("C20: with one unparsable file (%s) among %d files `analyze` produces no report: %s" % (bname, len(files) + 1, err[-200:]),
+                                  dict(binfo, signature={"kind": "unparsable-file-no-report"}))
+                    continue
+                if any(("[%s]" % bpath) in str(e) for e in ((bd.get("complexity") or {}).get("Errors") or [])):
+                    hist["unparsable_runs_where_the_parser_rejected_it"] += 1
+                keep = set(os.path.join("proj", f) for f in files)
+                hist["valid_files_compared_next_to_unparsable"] += len(keep)
+                per_file_same(ref, per_file(strip(bd), lambda p: p != bpath), keep,
+                              "adding the unparsable file %s (%s; position %d of %d in walk order) to the run (%s)" % (bname, kind, order.index(bname) + 1, len(order), how),
+                              binfo, scenario="unparsable-file-in-run")
+            tick("unparsable_file")
             # ---- an interleaving of its own: the request context ends while the analyses run (MCP client gives up / deadline) ---------------------------
             if ok_race and pi < (1 if tier == "quick" else 6):
                 big = os.path.join(root, "bigproj")
@@ -192,6 +378,7 @@ def run(tier, seed, replay=None):
                         res.violation("C20: MCP analyze_code returns while %s analysis goroutines of the request are still running (request context ended after 1/20/100/300/700 ms): "
                                       "the response and the error list are built from task records those goroutines still write (unsynchronised: a data race on task.Result/task.Error)" % left,
                                       dict(info, signature={"kind": "data-race", "scenario": "context-ends-mid-run", "where": ["goroutines outlive Execute"]}, runs=runs, broken=ps.broken))
+            tick("mcp_cancel")
             # ---- MCP tools vs the command line -------------------------------------------------------------------------------------------
             absproj = proj
             # "the same path and options": the options the MCP server works with are read from the echo of its own full response
@@ -287,6 +474,7 @@ def run(tier, seed, replay=None):
                 for sec, name in (("complexity", "complexity"), ("dead_code", "dead_code"), ("cbo", "cbo"), ("lcom", "lcom")):
                     if name in want and a[sec] != b[sec]:
                         bad.append(("MCP analyze_code(analyses=%s) in a session differs from the full single call in %s" % (args.get("analyses"), sec), {"kind": "mcp-session", "tool": tool, "section": sec}))
+            tick("mcp")
             for what, sig in bad:
                 k = C.classify(PID, sig)
                 if k:
@@ -298,14 +486,20 @@ def run(tier, seed, replay=None):
     if not ps.ok and not any(fi for _, _, fi in res.violations):
         res.violation("proof obligation or tie broken: " + "; ".join(ps.broken)[:1500], {"broken": ps.broken}, found_input=False)
     res.coverage.update({
-        "evaluations": hist["select_runs"] + hist["subset_runs"] + hist["race_runs"] + hist["mcp_calls"],
+        "evaluations": hist["select_runs"] + hist["subset_runs"] + hist["race_runs"] + hist["mcp_calls"] + hist["multi_target_runs"] + hist["unparsable_file_runs"],
         "distinct_nontrivial": len(nontrivial),
         "rule": "generated projects (4-8 modules in two directories with functions around the complexity thresholds, dead code, coupled classes, cohesion groups, copied functions, import "
                 "cycles); per project: the combined run vs each of the six analyses alone (sections compared exactly), random file subsets in random order vs the full run (per-file results), "
                 "the race-detector build of the real CLI with GOMAXPROCS 8/16/2, the race-detector build of the harness calling MCP analyze_code with a request context that ends after 1/20/100/300/700 ms, "
-                "directed subsets (a module without imports alone / after / before the module that imports the names it mentions), six MCP tools called in process vs the command line with the same path and options",
-        "samples": [{"select": "deps", "compared_section": "system"}, {"subset": ["mod2.py", "mod0.py"], "compared": ["complexity", "dead_code", "cbo", "lcom"]}, {"mcp_tool": "find_dead_code", "vs": "analyze --json dead_code findings"}],
-        "traces_validated_against_impl": hist["select_runs"] + hist["subset_runs"],
+                "directed subsets (a module without imports alone / after / before the module that imports the names it mentions), six MCP tools called in process vs the command line with the same path and options; "
+                "every project holds sibling directories / a module next to a package whose walk order is not the byte order of the paths (app/ + app-old/, utils.py + utils/); per project the top-level entries "
+                "given as separate command-line targets in a shuffled order (combined run vs the per-file results of `analyze proj`, vs two analyses alone, and under the race detector), the report written by "
+                "every race-detector run compared with the ordinary build's report for the same targets, and one file the parser rejects (syntax error / merge conflict / notebook magics / template / open brackets; first, middle, last, "
+                "inside a package) added to the project: the per-file results of every other file vs the run without it (project directory with all analyses; shuffled explicit file list)",
+        "samples": [{"select": "deps", "compared_section": "system"}, {"subset": ["mod2.py", "mod0.py"], "compared": ["complexity", "dead_code", "cbo", "lcom"]}, {"mcp_tool": "find_dead_code", "vs": "analyze --json dead_code findings"},
+                    {"targets": ["proj/utils.py", "proj/app-old", "proj/mod1.py", "proj/app", "proj/utils"], "compared": "per-file results vs `analyze proj`; race detector"},
+                    {"unparsable": "proj/a0_conflict.py", "compared": "per-file results of the other files vs the project without it"}],
+        "traces_validated_against_impl": hist["select_runs"] + hist["subset_runs"] + hist["multi_target_runs"] + hist["unparsable_file_runs"] + hist["race_reports_compared"],
         "distribution": hist,
     })
     return res.finish("other")
